@@ -76,7 +76,8 @@ def check_case(ref, s, groups=None):
         fd = {keys[i]: d[keys[i]] for i in p}
         attempt("fields" if list(p) == sorted(p) else "fields-permuted", lambda: Sid(fields=fd))
     if all(v and not (set(v) & URLMETA) for v in d.values()):
-        attempt("query", lambda: Sid(query=x.as_query()))
+        # (a value that starts with '~' reads as an optional value in a query: reported under its own signature)
+        attempt("query" + ("/value-starts-with-the-optional-marker" if any(v.startswith("~") for v in d.values()) else ""), lambda: Sid(query=x.as_query()))
     if not any(c in s for c in "'\\"):
         attempt("repr", lambda: eval(repr(x), {"Sid": Sid}))
     attempt("copy", lambda: x.copy())
@@ -104,10 +105,22 @@ def params(tier):
     return dict(n_closed=1, n_digit=1, n_names=2, empty=True)
 
 
+SPECIAL_NAMES = ["a~b", "ab~", "~ab", "a!b", "a@b", "a(b)", "\u00e9t\u00e9", "a'b", "a|b", "v1.2-rc+1"]
+
+
 def gen(ref, tier):
     p = params(tier)
     for typ in ref.types:
         yield from universe.typed_strings(ref, typ, **p)
+    # names with characters that mean something somewhere in the Sid syntax without being whitespace or URL metacharacters
+    # (the optional-value marker '~' inside, at the end and in front of a value), one free-text position at a time
+    conc = universe.one_per_type(ref)
+    for typ, s in conc.items():
+        segs = s.split("/")
+        for i, (k, pat) in enumerate(ref.templates[typ]):
+            if pat is None:
+                for nm in SPECIAL_NAMES:
+                    yield "/".join(segs[:i] + [nm] + segs[i + 1:])
 
 
 def plan(tier, seed):
